@@ -692,10 +692,13 @@ func (c *Client) Do(ctx context.Context, q Query) (err error) {
 				}
 				ce.Write(zap.Any("columns", info))
 			}
+			// The receiver reuses result for the next block, the sender keeps
+			// reading what it was given: hand over a copy.
+			info := append(proto.ColInfoInput(nil), result...)
 			select {
 			case <-ctx.Done():
 				return ctx.Err()
-			case colInfo <- result:
+			case colInfo <- info:
 				return nil
 			default:
 				// Column info is already delivered (or waiting to be picked up):
